@@ -491,6 +491,17 @@ fn rle_alternatives(items: &[(u8, u8)], i: usize) -> Vec<Vec<(u8, u8)>> {
             if (4..=7).contains(&n) {
                 alts.push(vec![(0, 0), (16, n - 1)]);
             }
+            // code 16 directly after a zero run (RFC 1951: repeats the previous length, i.e. 0)
+            if n >= 6 {
+                if let Some(x) = zero_run(n - 3) {
+                    alts.push(vec![x, (16, 3)]);
+                }
+            }
+            if n >= 9 {
+                if let Some(x) = zero_run(n - 6) {
+                    alts.push(vec![x, (16, 6)]);
+                }
+            }
             // 17 used where 18 is possible and vice versa is impossible by range; 18 split in 17+17
             if n == 11 {
                 alts.push(vec![(17, 8), (17, 3)]);
@@ -544,6 +555,8 @@ pub fn e3_dynspace(ctx: &Ctx, name: &str, st: &mut Local, f: Sink) {
         vec![Tok::Lit(b'a'), Tok::Lit(b'b'), Tok::Lit(b'a')],
         vec![Tok::Lit(b'a'), r(3, 1), Tok::Lit(b'b'), r(4, 2)],
         vec![Tok::Lit(b'a'), Tok::Lit(b'b'), Tok::Lit(b'c'), r(3, 3), r(258, 1), Tok::Lit(0xff)],
+        // two distance symbols in use, both >= 1 (the distance lengths start with a zero)
+        vec![Tok::Lit(b'a'), Tok::Lit(b'b'), Tok::Lit(b'c'), Tok::Lit(b'd'), r(4, 2), r(5, 4), r(3, 2)],
         // exactly one distance symbol in use (symbols 1, 2, 3 and 0)
         vec![Tok::Lit(b'a'), Tok::Lit(b'b'), r(6, 2)],
         vec![Tok::Lit(b'a'), Tok::Lit(b'b'), Tok::Lit(b'c'), r(9, 3), r(3, 3)],
@@ -718,6 +731,23 @@ pub fn e3_dynspace(ctx: &Ctx, name: &str, st: &mut Local, f: Sink) {
             }
         }
 
+        // (i) a zero run that crosses the boundary between the literal/length and the distance lengths:
+        // HLIT slack (trailing zeros) in front of distance lengths that start with zeros
+        {
+            let lead_d = dl.iter().take_while(|&&l| l == 0).count();
+            if lead_d >= 1 {
+                for z in [1usize, 3, 12] {
+                    if ll.len() + z > 286 {
+                        continue;
+                    }
+                    let mut l2 = ll.clone();
+                    l2.resize(ll.len() + z, 0);
+                    let h = header_from_lengths(&l2, &dl);
+                    emit(st, &mut idx, true, &mut || dyn_case(toks, h.clone(), &plain, format!("list{} zero run of {} crossing the HLIT/HDIST boundary", li, z + lead_d)));
+                }
+            }
+        }
+
         // (h) the header starts with "repeat previous" (code 16) although there is no previous length:
         // RFC 1951 leaves it undefined, zlib rejects it, the subject takes the previous length as 0
         {
@@ -815,7 +845,7 @@ pub fn e3_dynspace(ctx: &Ctx, name: &str, st: &mut Local, f: Sink) {
         }
     }
     let e = st.eng(name);
-    e.bound = "10 token lists x {header starting with repeat-previous (code 16); incomplete distance codes (single code of length 1, none); last run overshooting HLIT+HDIST (malformed); coarse run-length policies (no runs, no zero runs, no repeat runs); HLIT,HDIST 5-value menus x HCLEN min..19; all complete length vectors over the used lit/len symbols, over 2-4 distance symbols, over the used code-length symbols; default RLE with every single and every pair of alternative run choices}".into();
+    e.bound = "11 token lists x {zero run crossing the HLIT/HDIST boundary; header starting with repeat-previous (code 16); incomplete distance codes (single code of length 1, none); last run overshooting HLIT+HDIST (malformed); coarse run-length policies (no runs, no zero runs, no repeat runs); HLIT,HDIST 5-value menus x HCLEN min..19; all complete length vectors over the used lit/len symbols, over 2-4 distance symbols, over the used code-length symbols; default RLE with every single and every pair of alternative run choices}".into();
     e.exhaustive = true;
 }
 
